@@ -86,7 +86,7 @@ def count(name, lines, ib, stats, meta):
                 if h and h['props'] is not None:
                     stats['distinct'].add(('hello', tuple(t for t, _ in h['props'])))
                     if len(stats['samples']) < 3: stats['samples'].append({'hello_len': len(o), 'property_types': [t for t, _ in h['props']]})
-EXPLORE = dict(ops=('frame',), mtu=True, skip='~')
+EXPLORE = dict(domain='frames', ops=('frame',), mtu=True, skip='~')
 
 def extra_checks(tier, seed):
     """the same scenarios once more under MemorySanitizer: port memory is left uninitialised, every byte handed to the wire is tested
